@@ -158,7 +158,9 @@ where
                         libc::alarm(timeout_s);
                     }
                     let _ = pipe.write_all(&i.to_le_bytes());
-                    f(i, &mut t);
+                    if let Err(p) = crate::util::catch(|| f(i, &mut t)) {
+                        t.violate("panic", format!("panic while processing item {} ({}): {}", i, describe(i), p), json!({"engine": "abort", "item": i, "what": describe(i)}));
+                    }
                     i += k;
                 }
                 unsafe {
